@@ -464,6 +464,8 @@ class Gen:
                 return L([])
             hi = 3 if depth < 3 else 1
             n = self.draw(st.integers(1 if forced else 0, hi))
+            if n == hi and depth < 2 and self.draw(st.integers(0, 5)) == 0:
+                n = self.draw(st.integers(4, 7))   # now and then a longer array (code that looks at a prefix only)
             pos = self.draw(st.integers(0, n - 1)) if forced and n > 1 else 0
             return L([self.type(t["element"], el, depth + 1, cri if i == pos else None) for i in range(n)])
         if k == "map":
